@@ -329,7 +329,11 @@ impl PeerHandler {
             }
             BroadCmd::SendOwnState { am_choked_map } => {
                 match am_choked_map.get(&self.connection.addr) {
-                    Some(true) => self.connection.send_msg(&Choke::new()).await?,
+                    Some(true) => {
+                        // Choked peer is not served any more, also not from already loaded piece
+                        self.piece_tx = None;
+                        self.connection.send_msg(&Choke::new()).await?
+                    }
                     Some(false) => self.connection.send_msg(&Unchoke::new()).await?,
                     None => (),
                 }
